@@ -1099,6 +1099,29 @@ impl World {
 	pub fn oracle_on_failed(&mut self, n: usize, pay: usize) {
 		self.out.bump("oracle:C03-5 PaymentFailed consistent");
 		let p = self.pays[pay].clone();
+		// C03-7: PaymentFailed means that nothing of the payment is in flight any more ("safe to
+		// retry"): no open channel of the sender still carries an HTLC of it that is not being removed
+		if let Some(mgr) = self.mgr(n) {
+			use lightning::ln::channel_state::OutboundHTLCStateDetails as S;
+			self.out.bump("oracle:C03-7 PaymentFailed only when no HTLC of the payment is pending");
+			let mut pending = Vec::new();
+			for d in mgr.list_channels() {
+				for h in d.pending_outbound_htlcs.iter() {
+					if h.payment_hash == p.hash
+						&& matches!(h.state, Some(S::AwaitingRemoteRevokeToAdd) | Some(S::Committed))
+					{
+						pending.push((d.channel_id, h.htlc_id, h.amount_msat));
+					}
+				}
+			}
+			if !pending.is_empty() && p.from == n {
+				let msg = format!(
+					"node {} pay {}: PaymentFailed handled while the node's open channels still carry HTLCs of it: {:?}",
+					n, pay, pending
+				);
+				self.violate("C03", "C03-7 PaymentFailed while an HTLC of the payment is still pending", msg);
+			}
+		}
 		let loaded = self.nodes[n].disk.lock().unwrap().loaded_generation;
 		if !p.ev.sent.is_empty() {
 			// was the PaymentSent handled only after the snapshot this incarnation started from?
